@@ -134,3 +134,10 @@ Example C15_file_example :
   | _ => False
   end.
 Proof. vm_compute. repeat split; reflexivity. Qed.
+
+(** The tags the code uses for the three operators (regenerated from operation_transform_visitor.rs on every run) are the
+    documented ones, which the specification ([HookSites.tag_of_operation]) is written with. *)
+Theorem C15_operator_tags_are_documented :
+  gen_ADD_TAG = documented_add_tag /\ gen_ADD_ASSIGN_TAG = documented_add_assign_tag /\ gen_TPL_TAG = documented_tpl_tag.
+Proof. repeat split; reflexivity. Qed.
+Print Assumptions C15_operator_tags_are_documented.
